@@ -1063,3 +1063,61 @@ def rule_unmark_unreserved(ctx, rep, config="c-lib"):
                           "translation: when the node is in the minimal translation make_parse releases it although the tree returned refers to it (and "
                           "yaep_free_tree releases it again)" % ("NIL" if "nil" in lf else "ERROR"), where=s_.where(), witness=[s_.where()])
     rep.floor("R13-unmark", "clearings of a `used' mark after the costing pass", n, 2)
+
+
+def rule_inband_name_mark(ctx, rep, config="c-lib"):
+    rep.rule("R13-inband", "yaep_free_tree finds out whether the name shared by the nodes of a rule was met before by an in-band mark: free_tree_reduce tests name[0] == 0 "
+                           "(`seen': the pointer is dropped, the block is left to the node that met it first) and otherwise clears name[0].  The mark is sound only if "
+                           "a name never starts out with that value: the definition functions refuse (or never produce) an abstract node name whose first byte is 0 -- "
+                           "with an empty name every node takes the name for seen, nobody releases the 1-byte block")
+    p = ctx.prog(config)
+    f = p.fn("free_tree_reduce")
+    rep.cover(p, [f.name, "yaep_read_grammar"])
+    mark = None
+    for s_ in f.all_insts():
+        if s_.op == "store" and s_.ops[0].get("k") in ("c", "ci", "int") or (s_.op == "store" and const_int(s_.ops[0]) is not None):
+            if s_.op == "store" and const_int(s_.ops[0]) == 0:
+                a = resolve_addr(f, s_.ops[1])
+                if a.root[0] == "val":
+                    lp = loaded_from(f, a.root[1])
+                    if lp is not None and (lp.last_field() or "").endswith("name"):
+                        mark = s_
+    test = None
+    for c in f.all_insts():
+        if c.op == "icmp" and c.d["pred"] in ("eq", "ne") and const_int(c.ops[1]) == 0:
+            l_ = f.inst(strip_casts(f, c.ops[0]))
+            while l_ is not None and l_.op in ("sext", "zext"):
+                l_ = f.inst(strip_casts(f, l_.ops[0]))
+            if l_ is not None and l_.op == "load" and l_.ty == "i8":
+                a = resolve_addr(f, l_.ops[0])
+                if a.root[0] == "val":
+                    lp = loaded_from(f, a.root[1])
+                    if lp is not None and (lp.last_field() or "").endswith("name"):
+                        test = c
+    if mark is None or test is None:
+        raise AnalysisBroken("R13-inband: the name mark of free_tree_reduce (test of name[0], store of 0 into name[0]) was not found")
+    # the definition side: a test of the first byte of the abstract node name the callback delivered
+    guard = None
+    for gname in ("yaep_read_grammar", "rule_new_start"):
+        g = p.m.functions.get(gname)
+        if g is None or g.decl:
+            continue
+        for c in g.all_insts():
+            if c.op != "icmp" or c.d["pred"] not in ("eq", "ne") or const_int(c.ops[1]) != 0:
+                continue
+            l_ = g.inst(strip_casts(g, c.ops[0]))
+            while l_ is not None and l_.op in ("sext", "zext"):
+                l_ = g.inst(strip_casts(g, l_.ops[0]))
+            if l_ is None or l_.op != "load" or l_.ty != "i8":
+                continue
+            src = loaded_from(g, l_.ops[0])
+            txt = repr(resolve_addr(g, l_.ops[0]))
+            if "anode" in txt or (src is not None and "anode" in repr(src)):
+                guard = c
+    key = "free_tree_reduce/name-mark-outside-the-names"
+    if guard is not None:
+        rep.ok("R13-inband", key, sample={"mark": mark.where(), "names_checked_at": guard.where()})
+    else:
+        rep.violation("R13-inband", key, "free_tree_reduce takes name[0] == 0 for `this name was met before', and nothing keeps an abstract node name from being empty: "
+                      "for a rule whose abstract node is named `'' (the empty string, possible through the callbacks of yaep_read_grammar) no node releases the name -- one "
+                      "parse_alloc block of 1 byte per such rule stays allocated after yaep_free_tree", where=test.where(), witness=[test.where(), mark.where()])
